@@ -146,11 +146,15 @@ class Multiplexer(ComplexDop):
         self.switch_key.dop.encode_into_pdu(physical_value=key_value, encode_state=encode_state)
         encode_state.cursor_bit_position = 0
 
+        # the byte position of the content is specified by the
+        # BYTE-POSITION attribute of the multiplexer. (This also
+        # applies to cases without a structure: the decoder continues
+        # at this position as well.)
+        encode_state.cursor_byte_position = encode_state.origin_byte_position + self.byte_position
         if mux_case.structure is not None:
-            # the byte position of the content is specified by the
-            # BYTE-POSITION attribute of the multiplexer
-            encode_state.cursor_byte_position = encode_state.origin_byte_position + self.byte_position
             mux_case.structure.encode_into_pdu(physical_value=case_value, encode_state=encode_state)
+        else:
+            encode_state.emplace_bytes(b'')
 
         encode_state.origin_byte_position = orig_origin
 
